@@ -14,9 +14,9 @@ open Cascette.Model.Blte
 /-! ### byte strings on the line
 
 Lower-case hex (`-` = empty) or the compact notation of harness/src/bin/c01.rs: `<unit>*<n>` = the
-unit cycled to exactly `n` bytes, segments concatenated with `+`. Output is canonical: a string of
-at least `compactMin` bytes that has a period `k ≤ 8` from byte 0 (else from byte 1) is always
-printed compactly with the smallest such `k`, exactly as the harness prints it. -/
+unit cycled to exactly `n` bytes, segments concatenated with `+`. Output is canonical: the greedy segmentation of the
+harness's `hex` (strings of at least `compactMin` bytes; at each position the longest stretch with
+a period `k ≤ 8`, smallest `k` on ties, becomes `unit*n` when it has at least `runMin` bytes). -/
 
 def compactMin : Nat := 1024
 
@@ -40,25 +40,40 @@ def parseD (s : String) : Option Bytes :=
     ((s.splitOn "+").mapM parseSeg).map List.flatten
   else parseHex s
 
-/-- `l[i] = l[i-k]` for all `i ≥ k`. -/
-def periodic (l : Bytes) (k : Nat) : Bool :=
-  ((l.drop k).zip l).all fun (a, b) => a == b
+/-- number of leading positions on which the two lists agree -/
+def matchLen : Bytes → Bytes → Nat → Nat
+  | a :: as, b :: bs, acc => if a == b then matchLen as bs (acc + 1) else acc
+  | _, _, acc => acc
 
-def periodOf (l : Bytes) : Option Nat :=
-  [1, 2, 3, 4, 5, 6, 7, 8].find? (periodic l)
+/-- length of the longest `k`-periodic stretch at the head of `l` (0 if `l` has fewer than `k`
+bytes) -/
+def runLen (l : Bytes) (k : Nat) : Nat :=
+  if (l.take k).length < k then 0 else k + matchLen (l.drop k) l 0
+
+/-- best period at the head: the longest stretch, the smallest `k` on ties -/
+def bestRun (l : Bytes) : Nat × Nat :=
+  [1, 2, 3, 4, 5, 6, 7, 8].foldl (fun (bk, bl) k =>
+    let n := runLen l k
+    if n > bl then (k, n) else (bk, bl)) (0, 0)
+
+def runMin : Nat := 64
+
+/-- greedy segmentation (see `hex` in harness/src/bin/c01.rs); `lit` = pending literal bytes,
+reversed; `segs` = finished segments, reversed -/
+partial def segments (l : Bytes) (lit : Bytes) (segs : List String) : List String :=
+  match l with
+  | [] => (if lit.isEmpty then segs else hexOf lit.reverse :: segs).reverse
+  | b :: t =>
+    let (k, n) := bestRun l
+    if n ≥ runMin then
+      let segs := if lit.isEmpty then segs else hexOf lit.reverse :: segs
+      segments (l.drop n) [] ((hexOf (l.take k) ++ "*" ++ toString n) :: segs)
+    else segments t (b :: lit) segs
 
 /-- response-side printer (canonical). -/
 def hexC (l : Bytes) : String :=
-  if (l.take compactMin).length < compactMin then hexOf l else
-  match periodOf l with
-  | some k => hexOf (l.take k) ++ "*" ++ toString l.length
-  | none =>
-    match l with
-    | b :: t =>
-      match periodOf t with
-      | some k => hexOf [b] ++ "+" ++ hexOf (t.take k) ++ "*" ++ toString t.length
-      | none => hexOf l
-    | [] => hexOf l
+  if (l.take compactMin).length < compactMin then hexOf l
+  else "+".intercalate (segments l [] [])
 
 def modeOf : String → Option Mode
   | "N" => some .none | "Z" => some .zlib | "4" => some .lz4 | "E" => some .enc | "F" => some .frame
